@@ -101,17 +101,29 @@ def init_image(ctx):
     fns = sorted((g for g in ctx.facts.reachable_fns([root]) if g.kind != 'Closure' or g.owner is root), key=lambda f: f.path)
     cs = ctx.A.get('checksum-role')
     fns = [g for g in fns if g is root or (g.kind in ('Fn',) and g is not ctx.A.get('open_file'))]
+    # judge the creation function with its private helpers folded in: a helper like init_empty_page(page, id, kind) stores its PARAMETER, which is a
+    # constant only at each (folded) call site
+    X = ctx.x(root)
+    folded = set(getattr(X, 'inlined', ()))
+    fns = [X] + [g for g in fns if g is not root and g.qual not in folded]
+
+    def cval(fn, operand):
+        v = op_const_val(operand)
+        if v is not None:
+            return v
+        e = ctx.du(fn).sym(operand)
+        return e[1] if e[0] == 'const' else None
     for fn in fns:
         for bb, si, s in stores_to_field(fn, 'Page', 'page_type'):
-            img['page_types'].append(op_const_val(s['rv']['op']) if s['rv']['k'] == 'use' else None)
+            img['page_types'].append(cval(fn, s['rv']['op']) if s['rv']['k'] == 'use' else None)
         for fld in ('freelist_page', 'num_pages', 'magic', 'version'):
             for bb, si, s in stores_to_field(fn, 'Meta', fld):
                 if s['rv']['k'] == 'use':
-                    img['meta'][fld] = op_const_val(s['rv']['op'])
+                    img['meta'][fld] = cval(fn, s['rv']['op'])
         for bb, si, s in aggregates_of(fn, 'BucketMeta'):
-            img['root'] = [op_const_val(o) for o in s['rv']['ops']]
+            img['root'] = [cval(fn, o) for o in s['rv']['ops']]
         for bb, si, s in stores_to_field(fn, 'Page', 'count'):
-            img['counts'].append(op_const_val(s['rv']['op']) if s['rv']['k'] == 'use' else None)
+            img['counts'].append(cval(fn, s['rv']['op']) if s['rv']['k'] == 'use' else None)
     img['page_types'] = sorted(x for x in img['page_types'] if x is not None)
     return img
 
